@@ -4,6 +4,7 @@ import (
 	"fmt"
 	"sort"
 	"strings"
+	"sync"
 
 	suc "github.com/google/safehtml/uncheckedconversions"
 
@@ -141,4 +142,65 @@ func classifyCell(text string, c bool, c2 ...bool) cellObs {
 		obs.Class = "NoOutput"
 	}
 	return obs
+}
+
+// Numeric values whose text comes from a String or Error method: a sanitizer that decides from the value's
+// reflect.Kind ("numbers need no escaping") is wrong for them. The text is looked up by the number.
+var kindReg struct {
+	mu   sync.Mutex
+	ids  map[string]int
+	strs []string
+}
+
+func kindID(s string) int {
+	kindReg.mu.Lock()
+	defer kindReg.mu.Unlock()
+	if kindReg.ids == nil {
+		kindReg.ids = map[string]int{}
+	}
+	if id, ok := kindReg.ids[s]; ok {
+		return id
+	}
+	kindReg.strs = append(kindReg.strs, s)
+	kindReg.ids[s] = len(kindReg.strs) - 1
+	return len(kindReg.strs) - 1
+}
+
+func kindText(id int) string {
+	kindReg.mu.Lock()
+	defer kindReg.mu.Unlock()
+	if id < 0 || id >= len(kindReg.strs) {
+		return ""
+	}
+	return kindReg.strs[id]
+}
+
+type intStr int
+
+func (i intStr) String() string { return kindText(int(i)) }
+
+type uintErr uint32
+
+func (u uintErr) Error() string { return kindText(int(u)) }
+
+type fltStr float64
+
+func (f fltStr) String() string { return kindText(int(f)) }
+
+// numericKinds are the names understood by bindNumeric.
+var numericKinds = []string{"int-stringer", "uint-error", "float-stringer", "ptr-int-stringer"}
+
+func bindNumeric(kind, s string) (interface{}, bool) {
+	switch kind {
+	case "int-stringer":
+		return intStr(kindID(s)), true
+	case "uint-error":
+		return uintErr(kindID(s)), true
+	case "float-stringer":
+		return fltStr(kindID(s)), true
+	case "ptr-int-stringer":
+		v := intStr(kindID(s))
+		return &v, true
+	}
+	return nil, false
 }
